@@ -54,6 +54,8 @@ type Policy struct {
 	// Starvation windows: at step From pick a victim goroutine (by PRNG) and do not run it
 	// for Len steps while anything else is eligible.
 	Starve []StarveWin `json:"starve,omitempty"`
+	// MaxStarve bounds how many grants an eligible goroutine can be passed over (default 400)
+	MaxStarve int `json:"max_starve,omitempty"`
 }
 
 type StarveWin struct {
@@ -118,6 +120,7 @@ type Sim struct {
 	start      time.Time
 	OnGrant    func(step int, label int, site string)
 	Unreleased int
+	Forced     int // grants forced by the starvation bound
 }
 
 var cur *Sim
@@ -479,6 +482,23 @@ func (s *Sim) decide(cands []*waiter) (Decision, error) {
 			s.victim = cands[s.rng.Intn(len(cands))].label
 			s.victimT = s.Steps + sw.Len
 		}
+	}
+	// bounded unfairness: tickers keep some goroutines runnable forever, so a strict
+	// priority / sticky policy could starve a goroutine for the whole run; anything that has
+	// been eligible for MaxStarve grants runs next (oldest first)
+	maxStarve := p.MaxStarve
+	if maxStarve <= 0 {
+		maxStarve = 400
+	}
+	var oldest *waiter
+	for _, c := range cands {
+		if s.step-c.seq > maxStarve && (oldest == nil || c.seq < oldest.seq) {
+			oldest = c
+		}
+	}
+	if oldest != nil {
+		s.Forced++
+		return Decision{K: "r", G: oldest.label, S: oldest.site}, nil
 	}
 	pool := cands
 	if s.victim >= 0 && s.Steps < s.victimT && len(cands) > 1 {
